@@ -1206,14 +1206,32 @@ fn judge(ctx: &mut Ctx, prep: &Prepared) -> Judged {
             ctx.class(&format!("skipped:{}", why.chars().take(60).collect::<String>()));
         }
         Status::Unobservable(why) => {
-            // a value that is missing from the bindings is C10's subject, a compiler panic C08's
-            ctx.class("skipped:unobservable");
-            ctx.class(&format!("skipped:unobservable:{}", why.chars().take(50).collect::<String>()));
+            // a value assignment of a warning-free compilation that has no constant in the bindings
+            // (or bindings that cannot be read at all) denotes nothing: reported, once per shape
+            ctx.case(&prep.text, true);
+            ctx.class("unobservable");
+            let key = format!("unobservable:{}", why.split('`').next().unwrap_or("").chars().take(40).collect::<String>());
+            fails.push((key, format!("a warning-free compilation whose value bindings cannot be observed: {why}"), None));
         }
         Status::Rustc(e) => {
-            // bindings that do not type-check are C01's subject; they denote nothing that could be compared
-            ctx.class("skipped:not-type-checking (C01)");
-            ctx.class(&format!("skipped:rustc:{subject_kind}:{}", rustc_sig(e).chars().take(90).collect::<String>()));
+            // bindings that do not type-check are C01's subject: a rejection that C01 lists as a
+            // known finding is counted and skipped; any other rejection of a value definition is
+            // reported here as well (the constant or default denotes nothing)
+            let listed = crate::props::c01::classify_each(&prep.text, &prep.dumped, e);
+            match listed {
+                Some(fs) => {
+                    ctx.class("skipped:not-type-checking (listed C01 findings)");
+                    for f in fs {
+                        ctx.class(&format!("skipped:c01:{f}"));
+                    }
+                }
+                None => {
+                    ctx.case(&prep.text, true);
+                    ctx.class(&format!("rustc-unlisted:{subject_kind}:{}", rustc_sig(e).chars().take(90).collect::<String>()));
+                    let key = format!("rustc:{}", rustc_sig(e).chars().take(70).collect::<String>());
+                    fails.push((key, format!("the bindings of the value definitions do not type-check (no listed C01 finding matches): {}", crate::host::first_error(e)), None));
+                }
+            }
         }
         Status::Observed(obs) => {
             for (p, r) in obs {
